@@ -22,7 +22,7 @@ ASSUMPTIONS = [
 ]
 
 ALL = [r for r in dimrun.ROOTS if r not in ("gmm.lwl1", "ls.model2d")]  # shape probes of other properties (single vector / single model), not rescaling laws
-RULES = ["DIM.D1", "DIM.D2", "DIM.D3", "DIM.LOG", "DIM.SHAPE", "DIM.ABS"]
+RULES = ["DIM.D1", "DIM.D2", "DIM.D3", "DIM.LOG", "DIM.SHAPE", "DIM.ABS", "DIM.TRANSL"]
 
 
 def run(P, R, tier):
